@@ -703,7 +703,7 @@ func runC14(tier string, seed int64) *Outcome {
 func init() {
 	register(&Check{
 		ID: "C14", Level: "exploration",
-		Rule:        "exhaustive product over: every route pattern discovered with chi.Walk on the real router (hook H3; the run is invalid if fewer than the six known API routes are found) x methods {GET,POST,PUT,PATCH,DELETE,HEAD,OPTIONS} x ~27 invalid credential classes (none, empty bearer, garbage, 2 / 4 segments, other secret, truncated / bit-flipped signature, payload modified after signing, alg none (3 spellings / signatures), HS384 / HS512 with the right secret, RS256 / ES256 headers, expired (1 h, 25 s and 3 s ago), not yet valid, basic auth, the secret itself, random single-character edits of a valid token, a token that another server instance with another secret accepted earlier in this process) x transports {Authorization header, cookie jwt, query ?jwt=} x profiling on/off x 3 secrets (16, 33, 100+ bytes incl. non-ASCII), against the real http.Handler of server.NewServer on a runner that holds a running, a waiting and a finished job with log output (job variables and logs large enough that every authenticated listing / detail / log response exceeds 64 KiB). Requests are built to be effective if accepted (schedule an existing pipeline, cancel the running job, read real logs). Oracle: status 401, body free of planted markers (job ids, pipeline / task names, variable values, log lines), runner state (jobs, flags, pipeline list) unchanged; /debug/* answers 404 with profiling off (also for the real binary started without the flag, with --enable-profiling=false and with PRUNNER_ENABLE_PROFILING=false / 0); positive control with a valid token via header and cookie; every judged invalid request is also repeated directly after the same request was answered for a valid token (header / cookie), so that state kept between requests (caches, sessions) cannot open a route; finally 6 clients with invalid credentials send effective requests while 6 pollers with a valid token are in flight (the decision about one request must not depend on another). Borderline classes (iat in the future, lower-case 'bearer') are sent and their outcome recorded but never judged. A situation is (method, pattern, registered?, credential family, transport, profiling)",
+		Rule:        "exhaustive product over: every route pattern discovered with chi.Walk on the real router (hook H3; the run is invalid if fewer than the six known API routes are found) x methods {GET,POST,PUT,PATCH,DELETE,HEAD,OPTIONS} x ~27 invalid credential classes (none, empty bearer, garbage, 2 / 4 segments, other secret, truncated / bit-flipped signature, payload modified after signing, alg none (3 spellings / signatures), HS384 / HS512 with the right secret, RS256 / ES256 headers, expired (1 h, 25 s and 3 s ago), not yet valid, basic auth, the secret itself, random single-character edits of a valid token, a token that another server instance with another secret accepted earlier in this process) x transports {Authorization header, cookie jwt, query ?jwt=} x profiling on/off x 3 secrets (16, 33, 100+ bytes incl. non-ASCII), against the real http.Handler of server.NewServer on a runner that holds a running, a waiting and a finished job with log output (job variables and logs large enough that every authenticated listing / detail / log response exceeds 64 KiB). Requests are built to be effective if accepted (schedule an existing pipeline, cancel the running job, read real logs). Oracle: status 401, body free of planted markers (job ids, pipeline / task names, variable values, log lines), runner state (jobs, flags, pipeline list) unchanged; /debug/* answers 404 with profiling off (also for the real binary started without the flag, with --enable-profiling=false and with PRUNNER_ENABLE_PROFILING=false / 0); positive control with a valid token via header and cookie; every judged invalid request is also repeated directly after the same request was answered for a valid token (header / cookie), so that state kept between requests (caches, sessions) cannot open a route; finally 6 clients with invalid credentials send effective requests while 6 pollers with a valid token are in flight (the decision about one request must not depend on another). Borderline classes (iat in the future, lower-case 'bearer') are sent and their outcome recorded but never judged. A situation is (method, pattern, registered?, credential family, transport, profiling). Plus the real binary in four secret-source configurations (--jwt-secret / PRUNNER_JWT_SECRET over an old config file with another secret, config file only, generated): tokens signed with the secret that is NOT in force are tried on six routes by header and cookie (401, no effect), the secret in force is the positive control",
 		Assumptions: []string{"the listener's bind address and TLS are outside the handler and not examined"},
 		Custom:      runC14,
 		MinDistinct: 200,
